@@ -51,8 +51,11 @@ def connect_contract(cls):
 
 def disconnect_contract(cls, connected):
     pre = [H("case/connected", "not (self.writer is None)")] if connected else [H("case/never-connected", "self.writer is None")]
-    ct = Contract(ST + "disconnect", params={"self": T_(cls)}, requires=pre, modifies=GH,
-                  ensures=[P("C17/disconnect-absorbs-os-errors", "True")] + ([] if connected else [P("C17/disconnect-noop-when-never-connected", "nothing_changed()")]),
+    ct = Contract(ST + "disconnect", params={"self": T_(cls)}, requires=pre, modifies=GH + ["ghost.tasks"],
+                  ensures=[P("C17/disconnect-absorbs-os-errors", "True"),
+                           # leaving the gateway context ends in this call: whatever it started must be finished when it returns (C16)
+                           P("C16+C17/disconnect-leaves-no-task", "g('ghost.tasks') == old(g('ghost.tasks'))")]
+                  + ([] if connected else [P("C17/disconnect-noop-when-never-connected", "nothing_changed()")]),
                   raises={}, check_wf=False)
     ct.raises_only_id = "C17/raises-only"
     return ct
